@@ -61,4 +61,57 @@ theorem C03_roundtrip_scalars (dict : DTree) (cs : List ClassDef) (g : Bool) (fu
       simp only [expectAfter, hd, if_true]
       cases fieldOf fs d <;> rfl
 
+/-- **Round trip of a typed object whose set attributes are scalars or lists of
+    plain values** (any subset; list attributes with any number of elements):
+    assigning the generated AVPs to a fresh object restores every scalar and
+    every list, element by element in order; unset attributes keep their
+    constructor defaults; undeclared AVPs are carried over unchanged. -/
+theorem C03_roundtrip_flat (dict : DTree) (cs : List ClassDef) (g : Bool) (fuel fuel' cls : Nat) (c : ClassDef)
+    (fs : List (Nat × FVal)) (additional avps : List Avp)
+    (hc : findClass cs cls = some c) (hdist : defsDistinct c.defs = true) (hadd : c.additional ≠ 0)
+    (hval : ∀ d ∈ c.defs, FlatOK dict d (fieldOf fs d))
+    (hshape : ∀ d ∈ c.defs, (∀ x, fieldOf fs d = .scalar x → d.isList = false) ∧ (∀ xs, fieldOf fs d = .list xs → d.isList = true))
+    (hund : ∀ a ∈ additional, neededDef c.defs a.code a.vendor = none)
+    (hgen : generateFuel rfcTime dict cs (fuel + 1) (.obj cls fs additional) = .ok avps) :
+    ∃ f1, assignFuel (getValue rfcTime g) dict cs (fuel' + 1) cls avps = .ok (.obj cls f1 additional) ∧
+      ∀ d ∈ c.defs, fieldOf f1 d = (match fieldOf fs d with
+        | .scalar v => .scalar v
+        | .list xs => .list xs
+        | _ => fieldOf (initFields c) d) := by
+  have hattr := attrs_distinct_of_defsDistinct c.defs hdist
+  simp only [generateFuel, hc, bind, Except.bind, pure, Except.pure] at hgen
+  split at hgen
+  · contradiction
+  · rename_i gen hgen'
+    injection hgen with hgen; subst hgen
+    have hsub : ∀ d ∈ c.defs, d ∈ c.defs ∧ neededDef c.defs d.code d.vendor = some d :=
+      fun d hd => ⟨hd, C03_decode_finds_definition c.defs hdist d hd⟩
+    have hstart : ∀ d ∈ c.defs, StartOK fs (initFields c) d := by
+      intro d hd
+      unfold StartOK
+      cases hv : fieldOf fs d with
+      | scalar x => exact fieldOf_init_nonlist c d hd ((hshape d hd).1 x hv) hattr
+      | list xs =>
+        rcases hval d hd with hu | ⟨x, e, hx, _⟩ | ⟨xs', e, hx, ht, _⟩
+        · rw [hv] at hu; contradiction
+        · rw [hv] at hx; contradiction
+        · exact ⟨[], fieldOf_init_list c d hd ((hshape d hd).2 xs hv) ht hattr⟩
+      | _ => trivial
+    obtain ⟨f1, h1, h2⟩ := assign_generate_flat_aux dict cs g c (assignFuel (getValue rfcTime g) dict cs fuel') fuel fs hattr
+      c.defs hsub hdist hval gen hgen' (initFields c) [] hstart
+    refine ⟨f1, ?_, ?_⟩
+    · simp only [assignFuel, hc]
+      rw [assignLoop_append _ gen additional _ _ h1, assignLoop_undeclared _ _ _ _ hadd additional hund]
+      simp
+    · intro d hd
+      rw [h2 d hd]
+      simp only [expectFlat, hd, if_true]
+      cases hv : fieldOf fs d with
+      | list xs =>
+        rcases hval d hd with hu | ⟨x, e, hx, _⟩ | ⟨xs', e, hx, ht, _⟩
+        · rw [hv] at hu; contradiction
+        · rw [hv] at hx; contradiction
+        · simp only [fieldOf_init_list c d hd ((hshape d hd).2 xs hv) ht hattr, List.nil_append]
+      | _ => rfl
+
 end DV
